@@ -295,6 +295,34 @@ let () =
         String.concat ";" (List.map (fun (a, b) -> string_of_int (int_of_nat a) ^ ":" ^ string_of_int (int_of_nat b)) r.r_aliases);
         String.concat "" (List.map (fun o -> match o with ROk -> "o" | RErr -> "e") outs);
         il (run_plugins_of r [] (n 0)) ] ^ "\n")
+    | "BLD" :: name :: args ->
+      let a i = bytes_of_hex (List.nth args i) in
+      let b1 i = (match a i with [x] -> x | _ -> failwith "byte arg") in
+      let bl i = (List.nth args i = "1") in
+      let r = (match name with
+        | "single_sig_lock" -> single_sig_lock (a 0) (b1 1)
+        | "single_sig_witness" -> single_sig_witness (a 0)
+        | "single_sig_lock2" -> single_sig_lock2 (a 0) (b1 1)
+        | "single_sig_witness2" -> single_sig_witness2 (a 0) (a 1)
+        | "multisig_lock" -> multisig_lock (List.map bytes_of_hex (split ',' (List.nth args 0))) (b1 1) (b1 2)
+        | "ts_after_lock" -> ts_after_lock (a 0) (bl 1)
+        | "ts_before_lock" -> ts_before_lock (a 0) (bl 1)
+        | "ts_between_lock" -> ts_between_lock (a 0) (a 1) (bl 2)
+        | "scripthash_lock" -> scripthash_lock (a 0) (b1 1)
+        | "ptlc_lock" -> ptlc_lock (a 0) (a 1) (a 2) (b1 3)
+        | "htlc_sha256_lock" -> htlc_sha256_lock (a 0) (a 1) (a 2) (a 3) (b1 4)
+        | "htlc_shake256_lock" -> htlc_shake256_lock (b1 0) (a 1) (a 2) (a 3) (a 4) (b1 5)
+        | "htlc2_sha256_lock" -> htlc2_sha256_lock (a 0) (a 1) (a 2) (a 3) (b1 4)
+        | "htlc2_shake256_lock" -> htlc2_shake256_lock (b1 0) (a 1) (a 2) (a 3) (a 4) (b1 5)
+        | "delegate_key_lock" -> delegate_key_lock (a 0) (b1 1)
+        | "delegate_key_witness" -> delegate_key_witness (a 0) (a 1)
+        | "graftroot_lock" -> graftroot_lock (a 0) (b1 1)
+        | "taproot_lock" -> taproot_lock (a 0) (b1 1)
+        | "merkle_lock" -> merkle_lock (a 0)
+        | "adapter_check_lock" -> adapter_check_lock (b1 0) (a 1) (a 2)
+        | "adapter_decrypt" -> adapter_decrypt (a 0)
+        | _ -> failwith ("unknown builder " ^ name)) in
+      print_string ("= ok " ^ hex_of_bytes r ^ "\n")
     | ["B2I"; h] ->
       (match bytes_to_int (bytes_of_hex h) with
        | Some z -> print_string ("= ok " ^ str_of_z z ^ "\n") | None -> print_string "= err ValueError\n")
